@@ -570,6 +570,20 @@ theorem moved_take (s : State) (hP : Pre s) :
   · rw [moved_arr, moveFrom_eq _ _ _ hin, List.take_append_of_le_length (by omega), List.take_of_length_le (by omega)]
   · rw [moved_arr, moveFrom_length]
 
+/-- what the rest of the function needs to know about the state once the unfinished token has been moved (the default
+    skeleton copies it in a loop, the c99 skeleton calls memmove) -/
+structure MovedLike (s sM : State) : Prop where
+  vars : ∀ y, y ≠ 10 → y ≠ 11 → y ≠ 12 → y ≠ 13 → sM.vars y = s.vars y
+  v12 : sM.vars 12 = ntm s
+  take : sM.arr.take (ntm s).toNat = (s.arr.drop (s.vars 1).toNat).take (ntm s).toNat
+  mlen : ((s.arr.drop (s.vars 1).toNat).take (ntm s).toNat).length = (ntm s).toNat
+  len : sM.arr.length = s.arr.length
+  log : sM.log = s.log
+
+theorem moved_like (s : State) (hP : Pre s) : MovedLike s (moved s) := by
+  obtain ⟨a, b, c⟩ := moved_take s hP
+  exact ⟨moved_vars s, moved_12 s, a, b, c, moved_log s⟩
+
 /-- **no refill asked for** (`yy_fill_buffer` is 0, as for yy_scan_buffer/string/bytes): nothing is touched; end of file if
     only the end-of-buffer mark (and the yymore() prefix) was matched, else the pending text is to be matched first -/
 theorem nextBuf_nofill (s : State) (hP : Pre s) (h5 : s.vars 5 = 0) :
@@ -585,72 +599,77 @@ theorem nextBuf_nofill (s : State) (hP : Pre s) (h5 : s.vars 5 = 0) :
     · simp [nextBuf_shape, a1, a2, g1, g2, St.run, Ex.eval, bind, Option.bind, pure, setVar_vars, b2i, h5, hg, hc]
     · intro y h0 h1; simp [setVar_vars, h0, h1]
 
-/-- **the end of the input was seen before** (YY_BUFFER_EOF_PENDING): the reader is not asked again -/
-theorem nextBuf_eof_pending (s : State) (hP : Pre s) (h5 : s.vars 5 ≠ 0) (h6 : s.vars 6 = 2) :
-    ∃ s', nextBuf.run s = (s', .returned (retOf s 0)) ∧ Filled s s' 0 := by
+theorem rest_eof_pending (s sM : State) (hP : Pre s) (hM : MovedLike s sM) (h6 : s.vars 6 = 2) :
+    ∃ s', (St.seq fill fin).run sM = (s', .returned (retOf s 0)) ∧ Filled s s' 0 := by
   have ⟨hlen, hpos, htn, htl, hcl, hnl, _⟩ := hP
-  obtain ⟨hmt, hml, hmlen⟩ := moved_take s hP
-  rw [nextBuf_shape, prefix_run s hP h5]
-  have hf : fill.run (moved s) = (setVar (setVar (moved s) 2 0) 3 0, .normal) := by
-    have : (moved s).vars 6 = 2 := by rw [moved_vars s 6 (by decide) (by decide) (by decide) (by decide)]; exact h6
+  have hmt := hM.take; have hml := hM.mlen; have hmlen := hM.len
+  have mv := fun y (h : y ≠ 10 ∧ y ≠ 11 ∧ y ≠ 12 ∧ y ≠ 13) => hM.vars y h.1 h.2.1 h.2.2.1 h.2.2.2
+  have hf : fill.run sM = (setVar (setVar sM 2 0) 3 0, .normal) := by
+    have : sM.vars 6 = 2 := by rw [mv 6 (by decide)]; exact h6
     simp [fill, eofp, St.run, Ex.eval, bind, Option.bind, pure, setVar_vars, b2i, this]
   rw [seq_normal hf]
   have hk : 0 ≤ ntm s := by unfold ntm; omega
-  apply finish_filled s _ 0 (moved s).arr
-  · simp [setVar_vars, moved_vars]
-  · simp [setVar_vars, moved_vars]
-  · simp [setVar_vars, moved_vars]
+  apply finish_filled s _ 0 sM.arr
+  · simp [setVar_vars, mv 0 (by decide)]
+  · simp [setVar_vars, mv 9 (by decide)]
+  · simp [setVar_vars, mv 6 (by decide)]
   · simp [setVar_vars]
-  · simp [setVar_vars, moved_12]
+  · simp [setVar_vars, hM.v12]
   · exact hk
-  · simp [setVar_vars, moved_vars]
-  · simp [setVar_vars, moved_vars, hmlen]; omega
-  · simp [setVar_vars, moved_vars]; unfold ntm; omega
+  · simp [setVar_vars, mv 4 (by decide)]
+  · simp [setVar_vars, mv 4 (by decide), hmlen]; omega
+  · simp [setVar_vars, mv 4 (by decide)]; unfold ntm; omega
   · simp [chunk]
   · exact hmt
   · simp
   · exact hml
-  · simp [moved_log]
+  · simp [hM.log]
 
+/-- **the end of the input was seen before** (YY_BUFFER_EOF_PENDING): the reader is not asked again -/
+theorem nextBuf_eof_pending (s : State) (hP : Pre s) (h5 : s.vars 5 ≠ 0) (h6 : s.vars 6 = 2) :
+    ∃ s', nextBuf.run s = (s', .returned (retOf s 0)) ∧ Filled s s' 0 := by
+  rw [nextBuf_shape, prefix_run s hP h5]
+  exact rest_eof_pending s (moved s) hP (moved_like s hP) h6
 
 theorem afterRead_vars (s : State) (y : Nat) (h15 : y ≠ 15) (h2 : y ≠ 2) (h3 : y ≠ 3) : (afterRead s).vars y = s.vars y := by
   simp [afterRead, setVar_vars, h15, h2, h3]
 
-/-- **the reader is asked**: for at least one byte and at most YY_READ_BUF_SIZE, after the buffer was enlarged if the
-    unfinished token left no room; what it delivers is appended to that token -/
-theorem nextBuf_read (s : State) (hP : Pre s) (h5 : s.vars 5 ≠ 0) (h6 : s.vars 6 ≠ 2)
+theorem rest_read (s sM : State) (hP : Pre s) (hM : MovedLike s sM) (h6 : s.vars 6 ≠ 2)
     (hcan : s.vars 7 ≠ 0 ∨ 1 ≤ s.vars 4 - ntm s - 1) :
-    ∃ s' m, 1 ≤ m ∧ m ≤ s.vars 18 ∧ nextBuf.run s = (s', .returned (retOf s (got s m))) ∧ Filled s s' (got s m) := by
+    ∃ s' m, 1 ≤ m ∧ m ≤ s.vars 18 ∧ (St.seq fill fin).run sM = (s', .returned (retOf s (got s m))) ∧ Filled s s' (got s m) := by
   have ⟨hlen, hpos, htn, htl, hcl, hnl, hrbs⟩ := hP
-  obtain ⟨hmt, hml, hmlen⟩ := moved_take s hP
+  have hmt := hM.take; have hml := hM.mlen; have hmlen := hM.len
+  have moved_12 := hM.v12
+  have moved_log := hM.log
+  have moved_vars := fun y a b c d => hM.vars y a b c d
   have hk : 0 ≤ ntm s := by unfold ntm; omega
   have hkle : ntm s ≤ s.vars 4 := by unfold ntm; omega
-  have mv4 := moved_vars s 4 (by decide) (by decide) (by decide) (by decide)
-  have mv6 := moved_vars s 6 (by decide) (by decide) (by decide) (by decide)
-  have mv7 := moved_vars s 7 (by decide) (by decide) (by decide) (by decide)
+  have mv4 := moved_vars 4 (by decide) (by decide) (by decide) (by decide)
+  have mv6 := moved_vars 6 (by decide) (by decide) (by decide) (by decide)
+  have mv7 := moved_vars 7 (by decide) (by decide) (by decide) (by decide)
   -- the state when the room left has been computed
-  have h4run : (St.assign 15 (.sub (.sub (.var 4) (.var 12)) (.lit 1))).run (moved s) =
-      (setVar (moved s) 15 (s.vars 4 - ntm s - 1), .normal) := by
+  have h4run : (St.assign 15 (.sub (.sub (.var 4) (.var 12)) (.lit 1))).run sM =
+      (setVar sM 15 (s.vars 4 - ntm s - 1), .normal) := by
     simp [St.run, Ex.eval, bind, Option.bind, pure, mv4, moved_12]
-  obtain ⟨s5, hgrow, hG⟩ := grow_run (setVar (moved s) 15 (s.vars 4 - ntm s - 1))
+  obtain ⟨s5, hgrow, hG⟩ := grow_run (setVar sM 15 (s.vars 4 - ntm s - 1))
     (by simp [setVar_vars, mv4]; exact hpos) (by simp [setVar_vars, mv4, moved_12])
     (by simp [setVar_vars, mv4, hmlen]; exact hlen) (by simp [setVar_vars, mv4, moved_12]; exact hkle)
     (by simp [setVar_vars, mv7]; exact hcan)
   have fr : ∀ y, y ≠ 15 → y ≠ 8 → y ≠ 4 → y ≠ 17 → y ≠ 16 → y ≠ 10 → y ≠ 11 → y ≠ 12 → y ≠ 13 → s5.vars y = s.vars y := by
     intro y a b c d e f g h i
     rw [hG.frame y a b c d e]
-    simp [setVar_vars, a, moved_vars s y f g h i]
+    simp [setVar_vars, a, moved_vars y f g h i]
   have s5_12 : s5.vars 12 = ntm s := by
     rw [hG.frame 12 (by decide) (by decide) (by decide) (by decide) (by decide)]; simp [setVar_vars, moved_12]
   have s5_18 : s5.vars 18 = s.vars 18 := fr 18 (by decide) (by decide) (by decide) (by decide) (by decide) (by decide) (by decide) (by decide) (by decide)
   have s5_4 : s.vars 4 ≤ s5.vars 4 := by have := hG.size_le; simpa [setVar_vars, mv4] using this
   have hrd : rdTail.run s5 = (afterRead s5, .normal) :=
     rdTail_run s5 hG.room (by rw [s5_12]; exact hk) (by rw [s5_18]; exact hrbs) (by have := hG.ntr; have := hG.len; omega)
-  have hfill : fill.run (moved s) = (afterRead s5, .normal) := by
-    have e : fill.run (moved s) = rd.run (moved s) := by
+  have hfill : fill.run sM = (afterRead s5, .normal) := by
+    have e : fill.run sM = rd.run sM := by
       simp [fill, St.run, Ex.eval, bind, Option.bind, pure, b2i, mv6, h6]
     rw [e, rd, seq_normal h4run, seq_normal hgrow, hrd]
-  rw [nextBuf_shape, prefix_run s hP h5, seq_normal hfill]
+  rw [seq_normal hfill]
   have hroom := hG.room
   have hask1 : 1 ≤ ask s5 := by unfold ask; split <;> omega
   have hask2 : ask s5 ≤ s.vars 18 := by unfold ask; split <;> omega
@@ -698,40 +717,69 @@ theorem nextBuf_read (s : State) (hP : Pre s) (h5 : s.vars 5 ≠ 0) (h6 : s.vars
     rw [hgot]; omega
   · simp [afterRead, hG.log, moved_log]
 
+/-- **the reader is asked**: for at least one byte and at most YY_READ_BUF_SIZE, after the buffer was enlarged if the
+    unfinished token left no room; what it delivers is appended to that token -/
+theorem nextBuf_read (s : State) (hP : Pre s) (h5 : s.vars 5 ≠ 0) (h6 : s.vars 6 ≠ 2)
+    (hcan : s.vars 7 ≠ 0 ∨ 1 ≤ s.vars 4 - ntm s - 1) :
+    ∃ s' m, 1 ≤ m ∧ m ≤ s.vars 18 ∧ nextBuf.run s = (s', .returned (retOf s (got s m))) ∧ Filled s s' (got s m) := by
+  rw [nextBuf_shape, prefix_run s hP h5]
+  exact rest_read s (moved s) hP (moved_like s hP) h6 hcan
+
+theorem rest_overflow (s sM : State) (hM : MovedLike s sM) (h6 : s.vars 6 ≠ 2)
+    (hours : s.vars 7 = 0) (hfull : s.vars 4 - ntm s - 1 ≤ 0) :
+    ∃ s', (St.seq fill fin).run sM = (s', .fatal 1) ∧ s'.log = s.log := by
+  have moved_12 := hM.v12
+  have moved_log := hM.log
+  have moved_vars := fun y a b c d => hM.vars y a b c d
+  have mv4 := moved_vars 4 (by decide) (by decide) (by decide) (by decide)
+  have mv6 := moved_vars 6 (by decide) (by decide) (by decide) (by decide)
+  have mv7 := moved_vars 7 (by decide) (by decide) (by decide) (by decide)
+  have h4run : (St.assign 15 (.sub (.sub (.var 4) (.var 12)) (.lit 1))).run sM =
+      (setVar sM 15 (s.vars 4 - ntm s - 1), .normal) := by
+    simp [St.run, Ex.eval, bind, Option.bind, pure, mv4, moved_12]
+  obtain ⟨s', hrun, hlog⟩ := grow_fatal (setVar sM 15 (s.vars 4 - ntm s - 1))
+    (by simp [setVar_vars]; exact hfull) (by simp [setVar_vars, mv7]; exact hours)
+  refine ⟨s', ?_, by rw [hlog]; simp [moved_log]⟩
+  have hfill : fill.run sM = (s', .fatal 1) := by
+    have e : fill.run sM = rd.run sM := by
+      simp [fill, St.run, Ex.eval, bind, Option.bind, pure, b2i, mv6, h6]
+    rw [e, rd, seq_normal h4run, seq_stop hrun]
+  rw [seq_stop hfill]
+
+
 /-- **no room and not ours**: a buffer the scanner does not own cannot be enlarged — the documented fatal error -/
 theorem nextBuf_overflow (s : State) (hP : Pre s) (h5 : s.vars 5 ≠ 0) (h6 : s.vars 6 ≠ 2)
     (hours : s.vars 7 = 0) (hfull : s.vars 4 - ntm s - 1 ≤ 0) :
     ∃ s', nextBuf.run s = (s', .fatal 1) ∧ s'.log = s.log := by
-  have mv4 := moved_vars s 4 (by decide) (by decide) (by decide) (by decide)
-  have mv6 := moved_vars s 6 (by decide) (by decide) (by decide) (by decide)
-  have mv7 := moved_vars s 7 (by decide) (by decide) (by decide) (by decide)
-  have h4run : (St.assign 15 (.sub (.sub (.var 4) (.var 12)) (.lit 1))).run (moved s) =
-      (setVar (moved s) 15 (s.vars 4 - ntm s - 1), .normal) := by
-    simp [St.run, Ex.eval, bind, Option.bind, pure, mv4, moved_12]
-  obtain ⟨s', hrun, hlog⟩ := grow_fatal (setVar (moved s) 15 (s.vars 4 - ntm s - 1))
-    (by simp [setVar_vars]; exact hfull) (by simp [setVar_vars, mv7]; exact hours)
-  refine ⟨s', ?_, by rw [hlog]; simp [moved_log]⟩
-  have hfill : fill.run (moved s) = (s', .fatal 1) := by
-    have e : fill.run (moved s) = rd.run (moved s) := by
-      simp [fill, St.run, Ex.eval, bind, Option.bind, pure, b2i, mv6, h6]
-    rw [e, rd, seq_normal h4run, seq_stop hrun]
-  rw [nextBuf_shape, prefix_run s hP h5, seq_stop hfill]
-
+  rw [nextBuf_shape, prefix_run s hP h5]
+  exact rest_overflow s (moved s) (moved_like s hP) h6 hours hfull
 
 /-! ### the statements the property needs -/
 
-/-- **C13 for yy_get_next_buffer()**: whatever the buffer size, the fill level, the position and length of the unfinished
-    token and whatever the reader delivers within its contract, no cell outside the buffer is read or written (the reader is
-    given a window that lies inside it) and both loops end -/
-theorem never_out_of_bounds (s : State) (hP : Pre s) : (nextBuf.run s).2 ≠ .oob ∧ (nextBuf.run s).2 ≠ .fuel := by
+/-- what is proved of a translation of yy_get_next_buffer() (the default skeleton's here, the c99 skeleton's in
+    `C03NextBufC99.lean`) -/
+structure Correct (prog : St) : Prop where
+  nofill : ∀ s, Pre s → s.vars 5 = 0 →
+    ∃ s', prog.run s = (s', .returned (if s.vars 0 - s.vars 1 - s.vars 9 = 1 then 1 else 2)) ∧ s'.arr = s.arr ∧
+      s'.log = s.log ∧ ∀ y, y ≠ 10 → y ≠ 11 → s'.vars y = s.vars y
+  eof_pending : ∀ s, Pre s → s.vars 5 ≠ 0 → s.vars 6 = 2 → ∃ s', prog.run s = (s', .returned (retOf s 0)) ∧ Filled s s' 0
+  read : ∀ s, Pre s → s.vars 5 ≠ 0 → s.vars 6 ≠ 2 → (s.vars 7 ≠ 0 ∨ 1 ≤ s.vars 4 - ntm s - 1) →
+    ∃ s' m, 1 ≤ m ∧ m ≤ s.vars 18 ∧ prog.run s = (s', .returned (retOf s (got s m))) ∧ Filled s s' (got s m)
+  overflow : ∀ s, Pre s → s.vars 5 ≠ 0 → s.vars 6 ≠ 2 → s.vars 7 = 0 → s.vars 4 - ntm s - 1 ≤ 0 →
+    ∃ s', prog.run s = (s', .fatal 1) ∧ s'.log = s.log
+
+theorem nextBuf_correct : Correct nextBuf := ⟨nextBuf_nofill, nextBuf_eof_pending, nextBuf_read, nextBuf_overflow⟩
+
+theorem Correct.never_out_of_bounds {prog : St} (hC : Correct prog) (s : State) (hP : Pre s) :
+    (prog.run s).2 ≠ .oob ∧ (prog.run s).2 ≠ .fuel := by
   by_cases h5 : s.vars 5 = 0
-  · obtain ⟨s', h, _⟩ := nextBuf_nofill s hP h5
+  · obtain ⟨s', h, _⟩ := hC.nofill s hP h5
     rw [h]; exact ⟨by simp, by simp⟩
   · by_cases h6 : s.vars 6 = 2
-    · obtain ⟨s', h, _⟩ := nextBuf_eof_pending s hP h5 h6
+    · obtain ⟨s', h, _⟩ := hC.eof_pending s hP h5 h6
       rw [h]; exact ⟨by simp, by simp⟩
     · by_cases hcan : s.vars 7 ≠ 0 ∨ 1 ≤ s.vars 4 - ntm s - 1
-      · obtain ⟨s', m, _, _, h, _⟩ := nextBuf_read s hP h5 h6 hcan
+      · obtain ⟨s', m, _, _, h, _⟩ := hC.read s hP h5 h6 hcan
         rw [h]; exact ⟨by simp, by simp⟩
       · have h7 : s.vars 7 = 0 := by
           by_cases h : s.vars 7 = 0
@@ -741,16 +789,13 @@ theorem never_out_of_bounds (s : State) (hP : Pre s) : (nextBuf.run s).2 ≠ .oo
           by_cases h : 1 ≤ s.vars 4 - ntm s - 1
           · exact absurd (Or.inr h) hcan
           · omega
-        obtain ⟨s', h, _⟩ := nextBuf_overflow s hP h5 h6 h7 hfull
+        obtain ⟨s', h, _⟩ := hC.overflow s hP h5 h6 h7 hfull
         rw [h]; exact ⟨by simp, by simp⟩
 
-/-- **C03 / C10: no end of file while the reader has input.**  On a buffer that is refilled and has not seen the end of its
-    input, yy_get_next_buffer() says "end of file" or "last match" only if the reader, asked for at least one byte,
-    delivered none -/
-theorem eof_only_when_reader_dry (s : State) (hP : Pre s) (h5 : s.vars 5 ≠ 0) (h6 : s.vars 6 ≠ 2) (v : Int)
-    (hret : (nextBuf.run s).2 = .returned v) (hv : v ≠ 0) : s.vars inLen ≤ 0 := by
+theorem Correct.eof_only_when_reader_dry {prog : St} (hC : Correct prog) (s : State) (hP : Pre s) (h5 : s.vars 5 ≠ 0)
+    (h6 : s.vars 6 ≠ 2) (v : Int) (hret : (prog.run s).2 = .returned v) (hv : v ≠ 0) : s.vars inLen ≤ 0 := by
   by_cases hcan : s.vars 7 ≠ 0 ∨ 1 ≤ s.vars 4 - ntm s - 1
-  · obtain ⟨s', m, hm, _, h, _⟩ := nextBuf_read s hP h5 h6 hcan
+  · obtain ⟨s', m, hm, _, h, _⟩ := hC.read s hP h5 h6 hcan
     rw [h] at hret
     simp only [Outcome.returned.injEq] at hret
     by_cases hg : got s m = 0
@@ -764,8 +809,31 @@ theorem eof_only_when_reader_dry (s : State) (hP : Pre s) (h5 : s.vars 5 ≠ 0) 
       by_cases h : 1 ≤ s.vars 4 - ntm s - 1
       · exact absurd (Or.inr h) hcan
       · omega
-    obtain ⟨s', h, _⟩ := nextBuf_overflow s hP h5 h6 h7 hfull
+    obtain ⟨s', h, _⟩ := hC.overflow s hP h5 h6 h7 hfull
     rw [h] at hret; simp at hret
+
+theorem Correct.delivered_is_scanned {prog : St} (hC : Correct prog) (s : State) (hP : Pre s) (h5 : s.vars 5 ≠ 0)
+    (h6 : s.vars 6 ≠ 2) (hcan : s.vars 7 ≠ 0 ∨ 1 ≤ s.vars 4 - ntm s - 1) (hin : 1 ≤ s.vars inLen) :
+    ∃ (s' : State) (n : Nat), 1 ≤ n ∧ (n : Int) ≤ s.vars inLen ∧ prog.run s = (s', .returned 0) ∧
+      s'.arr.take ((ntm s).toNat + n + 2) = (s.arr.drop (s.vars 1).toNat).take (ntm s).toNat ++ chunk s n ++ [0, 0] ∧
+      s'.vars 2 = ntm s + n ∧ s'.vars 1 = 0 := by
+  obtain ⟨s', m, hm, _, h, hF⟩ := hC.read s hP h5 h6 hcan
+  have hg : 1 ≤ got s m := by unfold got; omega
+  refine ⟨s', got s m, hg, by unfold got; omega, ?_, hF.data, hF.nchars, hF.text⟩
+  rw [h]; simp [retOf]; omega
+
+/-- **C13 for yy_get_next_buffer()**: whatever the buffer size, the fill level, the position and length of the unfinished
+    token and whatever the reader delivers within its contract, no cell outside the buffer is read or written (the reader is
+    given a window that lies inside it) and both loops end -/
+theorem never_out_of_bounds (s : State) (hP : Pre s) : (nextBuf.run s).2 ≠ .oob ∧ (nextBuf.run s).2 ≠ .fuel :=
+  nextBuf_correct.never_out_of_bounds s hP
+
+/-- **C03 / C10: no end of file while the reader has input.**  On a buffer that is refilled and has not seen the end of its
+    input, yy_get_next_buffer() says "end of file" or "last match" only if the reader, asked for at least one byte,
+    delivered none -/
+theorem eof_only_when_reader_dry (s : State) (hP : Pre s) (h5 : s.vars 5 ≠ 0) (h6 : s.vars 6 ≠ 2) (v : Int)
+    (hret : (nextBuf.run s).2 = .returned v) (hv : v ≠ 0) : s.vars inLen ≤ 0 :=
+  nextBuf_correct.eof_only_when_reader_dry s hP h5 h6 v hret hv
 
 /-- **C03: what was delivered is what will be scanned.**  When the reader delivers `n > 0` bytes, the function says "go on",
     and the buffer holds the unfinished token, those `n` bytes in order, and the end marks — nothing lost, nothing repeated -/
@@ -773,11 +841,8 @@ theorem delivered_is_scanned (s : State) (hP : Pre s) (h5 : s.vars 5 ≠ 0) (h6 
     (hcan : s.vars 7 ≠ 0 ∨ 1 ≤ s.vars 4 - ntm s - 1) (hin : 1 ≤ s.vars inLen) :
     ∃ (s' : State) (n : Nat), 1 ≤ n ∧ (n : Int) ≤ s.vars inLen ∧ nextBuf.run s = (s', .returned 0) ∧
       s'.arr.take ((ntm s).toNat + n + 2) = (s.arr.drop (s.vars 1).toNat).take (ntm s).toNat ++ chunk s n ++ [0, 0] ∧
-      s'.vars 2 = ntm s + n ∧ s'.vars 1 = 0 := by
-  obtain ⟨s', m, hm, _, h, hF⟩ := nextBuf_read s hP h5 h6 hcan
-  have hg : 1 ≤ got s m := by unfold got; omega
-  refine ⟨s', got s m, hg, by unfold got; omega, ?_, hF.data, hF.nchars, hF.text⟩
-  rw [h]; simp [retOf]; omega
+      s'.vars 2 = ntm s + n ∧ s'.vars 1 = 0 :=
+  nextBuf_correct.delivered_is_scanned s hP h5 h6 hcan hin
 
 /-! ### the hypotheses are met: a 4-byte buffer holding "abc", the token "bc" unfinished, a reader offering five bytes -/
 
